@@ -44,11 +44,11 @@ def _fn(est):
 
 
 # ----------------------------------------------------------------------------------------------------------
-def gen_case(seed, k, big=False):
+def gen_case(seed, k, big=False, hi=130):
     """Two-component mixture: decoys and incorrect targets ~ N(0,1), correct targets ~ N(mu, sd); >= 50 of each
     label; ties by rounding all / some of the scores; random input order."""
     rng = np.random.default_rng([seed, k])
-    hi = 1500 if big else 260
+    hi = 1500 if big else hi       # qvality costs O(n^3) below 500 PSMs: the quick tier stays under 260 PSMs
     nt, nd = int(rng.integers(50, hi)), int(rng.integers(50, hi))
     pi0 = float(rng.uniform(0.2, 0.9))
     mu = float(rng.uniform(1.0, 5.0))
@@ -123,8 +123,8 @@ def judge(est, s, lab, perm):
 
 
 def _work(job):
-    seed, k, big, est = job
-    s, lab, perm, meta = gen_case(seed, k, big)
+    seed, k, big, hi, est = job
+    s, lab, perm, meta = gen_case(seed, k, big, hi)
     ties = len(np.unique(s)) < len(s)
     return k, meta, ties, est, judge(est, s, lab, perm)
 
@@ -142,7 +142,7 @@ def runnable(est):
 
 
 def run(tier, seed):
-    n_cases = 40 if tier == "quick" else 600
+    n_cases = 60 if tier == "quick" else 600
     assumptions = ["no oracle for the numerical value of a PEP / q-value (KDE, splines, NNLS): only finiteness, range, "
                    "monotonicity, ties and alignment of the returned vectors are checked, tolerance %g" % TOL,
                    "input domain: two-component normal mixtures with >= 50 targets and >= 50 decoys, location/scale "
@@ -163,13 +163,14 @@ def run(tier, seed):
             ("pep_" if est in PEP_ALGS else "qvalues_") + est, fn,
             "random: %d mixtures (seed %d, case k uses numpy seed [seed, k]) with 50..%d targets and decoys each, "
             "each evaluated on the input and on one random permutation of it"
-            % (n_cases, seed, 260 if tier == "quick" else 1500),
+            % (n_cases, seed, 129 if tier == "quick" else 1499),
             ("one finite value in [0,1] per PSM, " if est in PEP_ALGS else "one finite non-negative value per PSM, ")
             + "never decreasing as the score worsens, equal for equal scores, result(permuted input) == permuted "
               "result; non-trivial = the scores contain ties (modes: no ties / all rounded to 0.1 / 40% rounded / all "
               "rounded to 0.01 / best PSM is a decoy)")
     # one job per (case, estimator); the slow estimator (qvality: 0.02 .. 5 s per call) is scheduled first
-    jobs = [(seed, k, tier != "quick" and k % 4 == 0, est) for est in ests for k in range(n_cases)]
+    hi = 130 if tier == "quick" else 260
+    jobs = [(seed, k, tier != "quick" and k % 4 == 0, hi, est) for est in ests for k in range(n_cases)]
     with mp.get_context("fork").Pool(8) as pool:
         results = pool.map(_work, jobs, chunksize=1)
     seen = set()
@@ -179,7 +180,7 @@ def run(tier, seed):
             ck.case((seed, k, meta), nontrivial=ties)
             if cid and (est, cid) not in seen:
                 seen.add((est, cid))
-                ck.violation(cid, what, {"seed": seed, "k": k, "big": tier != "quick" and k % 4 == 0,
+                ck.violation(cid, what, {"seed": seed, "k": k, "big": tier != "quick" and k % 4 == 0, "hi": hi,
                                          "estimator": est, **meta})
     return [_freeze(c) for c in checks.values()], assumptions
 
@@ -188,7 +189,7 @@ def REPLAY(check_name, violation):
     inp = violation["input"]
     if isinstance(inp, str):
         inp = json.loads(inp)
-    s, lab, perm, _ = gen_case(inp["seed"], inp["k"], inp.get("big", False))
+    s, lab, perm, _ = gen_case(inp["seed"], inp["k"], inp.get("big", False), inp.get("hi", 130))
     cid, what = judge(inp["estimator"], s, lab, perm)
     return {"violated": cid is not None, "case": cid, "detail": what}
 
